@@ -132,6 +132,8 @@ def ev(t):
             return max(a, b)
         if t[1] == "MIN":
             return min(a, b)
+        if b == 0 and not isint:
+            raise Undefined()     # sign of a real zero (-0.0) not modelled
         return abs(a) if b >= 0 else -abs(a)
     op = t[1]
     a, b = ev(t[2]), ev(t[3])
@@ -458,6 +460,32 @@ def compiled_oracle(cases, part):
         shutil.rmtree(wd, ignore_errors=True)
 
 
+def hazard_mechanism(t, wd, part):
+    """For the compiled oracles: the planted hazard of the tree, provided
+    its hazard-free twin is accepted by gfortran and has the right value."""
+    from psyclone.psyir.backend.fortran import FortranWriter
+    from psyclone.psyir.nodes import Assignment, Reference
+    f = sorted(facts(t))
+    if len(f) != 1:
+        return None
+    tw = twin(t)
+    try:
+        node = build(tw, normal=True)
+        logical = isinstance(ev_kind(tw), bool)
+        Assignment.create(Reference(symtab().lookup(
+            "flag" if logical else "a")), node)
+        text = FortranWriter()(node)
+        val = ev(tw)
+    except Exception:
+        return None
+    sub = __import__("vf.core", fromlist=["Part"]).Part()
+    ok = run_chunk(wd, [(tw, text, val)], sub, single=True)
+    part.count("twins_compiled")
+    if ok and not sub.d["violations"]:
+        return f[0]
+    return None
+
+
 def run_chunk(wd, chunk, part, single=False):
     lines = ["program p", "  implicit none",
              "  double precision :: a, b, arr(10), r", "  integer :: i, k",
@@ -482,7 +510,7 @@ def run_chunk(wd, chunk, part, single=False):
         if single:
             t, text, val = chunk[0]
             part.violation({"kind": "written_text_rejected_by_gfortran",
-                            "mechanism": None,
+                            "mechanism": hazard_mechanism(t, wd, part),
                             "what": "tree %s written as '%s': %s" % (
                                 show(t), text, err.strip()[-200:]),
                             "tree": show(t), "text": text,
@@ -505,7 +533,7 @@ def run_chunk(wd, chunk, part, single=False):
             same = Fraction(float(g)) == Fraction(val)
         if not same:
             part.violation({"kind": "written_text_has_different_value",
-                            "mechanism": None,
+                            "mechanism": hazard_mechanism(t, wd, part),
                             "what": "tree %s = %s but '%s' evaluates to %s"
                                     % (show(t), fortran_value_text(val), text,
                                        g),
